@@ -210,9 +210,6 @@ def tok3 (p : Str) : Option (List KTok) := tokVar varLenBraceLazy okAny 0 p
 /-- documented form for keyMatch5 (and, with whole-segment variables, keyMatch4): `{name}`, the name without braces -/
 def tok5 (p : Str) : Option (List KTok) := tokVar varLenBraceGreedy okBraceName 0 p
 
-/-- keys are single-line texts -/
-def noNL (k : Str) : Bool := !k.contains '\n'
-
 /-! ## binding: keyMatch4, keyGet2, keyGet3 -/
 
 /-- every variable is directly followed by '/' or the end of the pattern, and `*` is last -/
